@@ -79,7 +79,7 @@ def main():
         confirmed = rc0 == 0 and rc1 != 0 and rcc == 0 and (skip_tests or not missing)
         meta["confirmed"] = confirmed
         # the patch relative to HEAD
-        patch = sh(["git", "-C", wt, "diff", "--", "pymoto"])[1]
+        patch = subprocess.run(["git", "-C", wt, "diff", "--", "pymoto"], capture_output=True).stdout   # bytes: CRLF files
         meta["patch_head"] = patch
         # detection matrix
         det = {}
@@ -107,7 +107,7 @@ def finish(meta, cand, wt, keep):
     out = os.path.join(VERIF, "seeded", meta["id"])
     if keep:
         os.makedirs(out, exist_ok=True)
-        open(os.path.join(out, "patch.diff"), "w").write(meta.pop("patch_head"))
+        open(os.path.join(out, "patch.diff"), "wb").write(meta.pop("patch_head"))
         shutil.copy(os.path.join(cand, "demo.py"), os.path.join(out, "demo.py"))
         if os.path.exists(os.path.join(cand, "notes.md")):
             shutil.copy(os.path.join(cand, "notes.md"), os.path.join(out, "notes.md"))
